@@ -65,6 +65,11 @@ CHECKS = {
          "The stream model is evaluated for every (loaded set, range, filter over a 4-account universe incl. a loaded-only account, index on/off) of a 2-epoch model archive; TLC-generated archives (skipped slots, vote / failed / metadata-less transactions, address-table loaded accounts) are built with real `index gsfa` directories and streamed over ranges inside / across epochs / on skipped slots with seeded filters, with and without the index; TLC judges every streamed sequence (order and membership) against StreamAbs.",
          "Filters always carry vote and failed (absence is C08's); exclude / required accounts never occur as loaded-only accounts; empty marker messages are not transactions; index loaded for all epochs or none; the per-account batch of 100 of the index path is a recorded known finding.",
          "DESIGN.md section 7, C19", "stream"),
+ "C04": ("model_checking",
+         "TLC exhaustive check of HashIndex.tla (abstract hash oracles, mining, eytzinger layout and walk) and MC_Eytz; TLC-enumerated case classes built with the real builders of the three formats; TLC trace judge (Trace_HashIndex.tla)",
+         "Every bucket assignment x in-bucket hash function x insertion sequence (incl. duplicates) for 3-4 keys, 2 buckets and 2 hash domains is explored (found-with-value, duplicate => failure, absent keys answered only through a hash collision), the eytzinger layout / search transcription is checked for every population <= 33 / 70, and 6 300 case classes (3 formats x value sizes 1..252 x populations 1..60 000 incl. 2^k +- 1 and the 10 000-per-bucket boundary x declared count x insertion order x key shapes incl. empty and 65 535-byte keys x error classes) are built twice by the real builders (byte compare), every key is looked up and the sealed buckets are dumped by an independent parser; TLC judges outcome, lookups, determinism and on-disk layout.",
+         "xxhash is an uninterpreted oracle in the model; quick replays all error classes, 6 large populations and 1 200 sampled classes; builds > 400 keys are judged on the conjunction of lookups and the entry count.",
+         "DESIGN.md section 7, C04", "hashindex"),
  "C06": ("model_checking",
          "TLC exhaustive check of code-shaped GsfaWriter.tla; TLC-simulated schedules forced on the real writer through hook gates; TLC trace judge (Trace_Gsfa.tla) over recorded read-backs",
          "Exhaustive TLC exploration of every push history x goroutine interleaving of the code-shaped writer model (thresholds shrunk), plus every TLC-generated schedule replayed step by step on the real writer with the same literals shrunk, real-constant runs around the 1000-entry batch size and the periodic flush, and records at both sides of the varint width boundaries; every recorded read-back is judged by TLC against the abstract property.",
@@ -72,6 +77,8 @@ CHECKS = {
          "DESIGN.md section 7, C06", "gsfa"),
 }
 ENGINES = [
+ {"name": "hashindex", "path": "spec/HashIndex.tla", "serves_properties": ["C04"],
+  "kind_free_text": "TLA+ Util (eytzinger), HashIndexAbs/HashIndex, MC_Eytz, Gen_HashIndex, Trace_HashIndex; Go harness/pkg/compactindexsized/c04_test.go"},
  {"name": "rpcgrammar", "path": "spec/RpcGrammar.tla", "serves_properties": ["C08"],
   "kind_free_text": "TLA+ RpcGrammar/GrpcGrammar + Trace_RpcGrammar; Go harness/main/c08_test.go (child-process isolation)"},
  {"name": "epochset", "path": "spec/EpochSet.tla", "serves_properties": ["C09"],
